@@ -25,6 +25,7 @@ type Harness struct {
 	Reach    []string // labels that must be reached by at least one path (vacuity witnesses)
 	Asserts  []string // assert labels that must be evaluated at least once
 	Note     string
+	Solver   string // primary solver for this harness ("" = default)
 }
 
 // Check is the machinery for one property.
@@ -119,7 +120,7 @@ func (r *Runner) Run() int {
 		for k, v := range r.Overrides {
 			params[k] = v
 		}
-		sp := &sym.HarnessSpec{Name: h.Func, Fn: fn, Params: params, Setup: h.Setup}
+		sp := &sym.HarnessSpec{Name: h.Func, Fn: fn, Params: params, Setup: h.Setup, Solver: h.Solver}
 		specs = append(specs, sp)
 		specHarness[sp] = h
 	}
@@ -476,6 +477,34 @@ func runNative(repo, verif, pkg, fn, vector string) (string, error) {
 		files, _ := filepath.Glob(filepath.Join(verif, "harness", sub, "*.go"))
 		for _, f := range files {
 			repl[filepath.Join(repo, sub, filepath.Base(f))] = f
+		}
+	}
+	// model clock: compile copies of the repository files in which the clock
+	// calls are renamed to the harness clock (generated from the current source)
+	if pkg == "client" {
+		files, _ := filepath.Glob(filepath.Join(repo, pkg, "*.go"))
+		for i, f := range files {
+			if strings.HasSuffix(f, "_test.go") {
+				continue
+			}
+			if _, isOverlay := repl[f]; isOverlay {
+				continue
+			}
+			b, err := os.ReadFile(f)
+			if err != nil {
+				continue
+			}
+			src := string(b)
+			ns := strings.NewReplacer("time.Now()", "vNow()", "time.After(", "vAfter(", "time.Since(", "vSince(").Replace(src)
+			if ns == src {
+				continue
+			}
+			if !strings.Contains(ns, "time.") {
+				ns = strings.Replace(ns, "\t\"time\"\n", "", 1)
+			}
+			tf := filepath.Join(tmp, fmt.Sprintf("clock_%d_%s", i, filepath.Base(f)))
+			os.WriteFile(tf, []byte(ns), 0o644)
+			repl[f] = tf
 		}
 	}
 	testSrc := fmt.Sprintf(`//go:build verif
